@@ -360,7 +360,7 @@ template <class T> static void shear2_p(pbt::Ctx& c) {
 		cmp(c, "proj2D err/tol", "proj2D/mat3/M*(I-nn^T)", g, q, 3, "proj2D(M,normal)");
 	}
 }
-REG2(shear2_p, "shear2d_proj_rotate2d_rotateXYZ", 200000, 10000000,
+REG2(shear2_p, "shear2d_proj_rotate2d_rotateXYZ", 200000, 4000000,
      "base matrix M (8 classes; its upper-left 3x3 for the 2D functions) x factors s,t (small ints / uniform +-3) x angle (6 classes) x vector x unit normal: matrix_transform_2d shearX/shearY against the documented direction "
      "(parallel to the x / y axis, column vectors) and against either direction, transform2 shearX2D..shearZ3D against either reading of the elementary shear (counted), 3x3 rotate(M,angle) against M*R2(angle), rotate(vec2), "
      "rotateX/Y/Z(vec3/vec4) against Rodrigues about the coordinate axis, proj2D/proj3D against M*(I-nn^T); non-trivial = M rich, s and t non-zero and different");
